@@ -269,6 +269,10 @@ def shapes(tt, fs, git, before_view, disk_before, stored=None):
         if git and f.tree_path is not None and f.tree_kind in ("file", "symlink") and t in nv and not f.new_contents \
                 and f.tree_path not in before_view:
             out.add("existing-unversioned-file-versioned-and-moved" if f.moved else "existing-unversioned-file-versioned")
+        if git and f.tree_path is not None and f.tree_path in before_view and t in tt._removed_id and t in nv and not f.new_contents:
+            # unversion_file + version_file on an entry the index already has: the index entry is removed and, without new
+            # contents, not added again, while the preview keeps listing it
+            out.add("git-unversion-then-version-same-entry")
         if git and f.tree_kind == "directory" and f.moved and any(q.startswith(f.tree_path + "/") for q in before_view):
             # git has no directory entries: the index paths of the files below a moved directory are not rewritten
             out.add("git-directory-moved-children-keep-index-paths")
@@ -279,7 +283,7 @@ def shapes(tt, fs, git, before_view, disk_before, stored=None):
 
 # shapes that explain a symptom, most specific first; the first one present names the mechanism
 GLOBAL_ORDER = [
-    "two-present-entries-one-final-path", "pending-kind-change-entry-moved-or-given-children", "versioned-entry-missing-on-disk-recreated-as-another-kind",
+    "two-present-entries-one-final-path", "git-unversion-then-version-same-entry", "pending-kind-change-entry-moved-or-given-children", "versioned-entry-missing-on-disk-recreated-as-another-kind",
     "git-directory-moved-children-keep-index-paths", "deleted-directory-keeps-children", "directory-becomes-file-children-left-behind",
     "versioned-entry-without-contents-under-non-directory", "versioned-entry-without-contents-under-missing-parent",
     "contentless-entry-under-non-directory", "symlink-listed-as-directory", "two-trans-ids-one-final-path",
@@ -294,7 +298,7 @@ PRIORITY = {
               "versioned-entry-without-contents-under-non-directory", "versioned-entry-without-contents-under-missing-parent",
               "two-present-entries-one-final-path", "file-id-moved-to-another-trans-id", "contents-deleted-entry-kept-versioned"],
     "late-conflict": ["symlink-listed-as-directory", "versioned-entry-missing-on-disk"],
-    "preview": ["pending-kind-change-entry-moved-or-given-children", "two-trans-ids-one-final-path", "existing-unversioned-file-versioned-and-moved", "existing-unversioned-file-versioned",
+    "preview": ["git-unversion-then-version-same-entry", "pending-kind-change-entry-moved-or-given-children", "two-trans-ids-one-final-path", "existing-unversioned-file-versioned-and-moved", "existing-unversioned-file-versioned",
                 "symlink-listed-as-directory", "root-unversioned-reversioned-or-deleted", "git-directory-moved-children-keep-index-paths"] + GLOBAL_ORDER,
 }
 
